@@ -45,6 +45,7 @@ def opts(tier):
     o.pad_p = 0.02
     o.nasty_names = 0.05
     o.short_last_p = 0.03
+    o.declared_huge_p = 0.01
     o.equal_shapes_p = 0.15
     return gen.deepen(o, tier)
 
